@@ -16,9 +16,14 @@ func printNode returns (err)
   decreases tmax - tdepth[node]
   modifies ghost(bufSticky, sinkFailed, sinkPend, prLen, prSink, prArg, prArgs)
   ensures @sink [C17] BufStep(payload(output))
+  // no child is dropped: at least one row per child, and a child whose subtree is not joined into its row is
+  // followed by the rows of ITS children
+  ensures @a-row-per-child [C03] err == nil ==> prLen >= old(prLen) + len(node.Children)
   loop 1 {
     invariant @inv node == old(node) && output == old(output) && level == old(level) && collapseLast == old(collapseLast) && BufStep(payload(output))
     invariant @keys forall p int :: {#coll[p]} 0 <= p && p < len(#coll) ==> #coll[p] in node.Children
+    invariant @rows prLen >= old(prLen) + #i && len(#coll) == len(node.Children)
+    end { assert @subtree-follows [C03] prLen >= at(loop1, prLen) + 1 + (if collapseLast && len(child.Children) == 1 then 0 else len(child.Children)) }
   }
   // --collapse-last: a joined "parent/child" line replaces the subtree only if that subtree is exactly one leaf
   // (the second Fprintf of the loop body is the joined line, after which the subtree is skipped): the child has exactly
@@ -26,6 +31,12 @@ func printNode returns (err)
   ghost before call 2 Fprintf {
     assert @join-only-sole-leaf [C03] len(child.Children) == 1 && (exists k string :: k in child.Children && len(mapget(child.Children, k).Children) == 0)
   }
+  // every child (in Keys() order) gets exactly ONE row, printed before its subtree, showing the child's own total and
+  // (when it is not joined with its sole leaf) its own name; nothing else is printed in between
+  ghost after call 1 Fprintf { assert @leaf-row [C03] prLen == at(loop1, prLen) + 1 && PrintedF(prLen - 1, 0, child.Total) && PrintedStr(prLen - 1, 2, child.Name) }
+  ghost after call 2 Fprintf { assert @joined-row [C03] prLen == at(loop1, prLen) + 1 && PrintedF(prLen - 1, 0, child.Total) }
+  ghost after call 3 Fprintf { assert @branch-row [C03] prLen == at(loop1, prLen) + 1 && PrintedF(prLen - 1, 0, child.Total) && PrintedStr(prLen - 1, 2, child.Name) }
+  ghost before call 1 printNode { assert @row-before-subtree [C03] prLen == at(loop1, prLen) + 1 && #arg0 == child && #arg1 == level + 1 }
 
 // getJump returns the names along a sole-branch chain - but only if the chain ends in a leaf: a non-empty jump
 // means the whole subtree below the node IS that chain, so printing the joined path and skipping the subtree drops
@@ -49,10 +60,18 @@ func printNodeCollapsed returns (err)
   modifies ghost(bufSticky, sinkFailed, sinkPend, prLen, prSink, prArg, prArgs, jlen)
   ensures @sink [C17] BufStep(payload(output))
   ensures @reports-loss [C17] err == nil ==> bufSticky[payload(output)] == old(bufSticky[payload(output)])
+  ensures @a-row-per-child [C03] err == nil ==> prLen >= old(prLen) + len(node.Children)
   loop 1 {
     invariant @inv node == old(node) && output == old(output) && level == old(level) && BufStep(payload(output)) && bufSticky[payload(output)] == old(bufSticky[payload(output)])
     invariant @keys forall p int :: {#coll[p]} 0 <= p && p < len(#coll) ==> #coll[p] in node.Children
+    invariant @rows prLen >= old(prLen) + #i && len(#coll) == len(node.Children)
+    end { assert @subtree-follows [C03] len(jump) == 0 ==> prLen >= at(loop1, prLen) + 1 + len(child.Children) }
   }
+  // one row per child with the child's total: the joined path when the subtree is a chain (then the subtree is
+  // skipped - see getJump), else the child's own name followed by its subtree
+  ghost after call 1 Fprintf { assert @jump-row [C03] prLen == at(loop1, prLen) + 1 && PrintedF(prLen - 1, 0, child.Total) && len(jump) > 0 }
+  ghost after call 2 Fprintf { assert @branch-row [C03] prLen == at(loop1, prLen) + 1 && PrintedF(prLen - 1, 0, child.Total) && PrintedStr(prLen - 1, 2, child.Name) && len(jump) == 0 }
+  ghost before call 1 printNodeCollapsed { assert @row-before-subtree [C03] prLen == at(loop1, prLen) + 1 && #arg0 == child && #arg1 == level + 1 }
 
 // ---------------------------------------------------------------------------------------------
 // the three balance reporters: one tree for the whole walk, printed in Flush
@@ -64,7 +83,7 @@ pred BalSInv(r *balanceSingleReporter) := r != nil && r.output != nil && TreeInv
 func newBalanceReporter returns (r)
   props C03 C08 C17 C05
   requires @tree TreeInv()
-  modifies ghost(bufSink, bufSticky, tnodes, tdepth, tmax, tmapOf, jlen, tvLen, tv, tseg, tvSet)
+  modifies ghost(bufSink, bufSticky, tnodes, tdepth, tmax, tmapOf, jlen, tvLen, tv, tseg, tvSet, adLen, adName, adVal, adSep, adRoot)
   ensures @fresh fresh(r) && fresh(r.output) && BalInv(r) && r.db == db
   ensures @nodes-kept forall n *shared.TreeNode :: {n in tnodes} old(n in tnodes) ==> n in tnodes
   ensures @sink [C17] bufSink == store(old(bufSink), r.output, payload(config.Output)) && bufSticky == store(old(bufSticky), r.output, false)
@@ -74,10 +93,20 @@ func (*balanceReporter).Process returns (err)
   props C03 C08 C17 C05
   requires @args ln != nil && BalInv(r)
   modifies heap(shared.TreeNode), maps(string, *shared.TreeNode)
-  modifies ghost(tnodes, tdepth, tmax, tmapOf, jlen, tvLen, tv, tseg, tvSet)
+  modifies ghost(tnodes, tdepth, tmax, tmapOf, jlen, tvLen, tv, tseg, tvSet, adLen, adName, adVal, adSep, adRoot)
   ensures @inv BalInv(r) && err == nil && r.output == old(r.output) && r.root == old(r.root)
   ensures @nodes-kept forall n *shared.TreeNode :: {n in tnodes} old(n in tnodes) ==> n in tnodes
+  // the tree receives EXACTLY the record's entries: one AddDeep per entry, in order, with the entry's own name and
+  // quantity, split on "/", below the reporter's root (with AddDeep's contract: every prefix path of the name grows
+  // by the quantity and nothing else changes)
+  let A0 := adLen
+  let E0 := elems(ln.Elements)
+  let N0 := len(ln.Elements)
+  ensures @adds-the-entries [C03] adLen == A0 + N0 && (forall k int :: {adName[k]} A0 <= k && k < A0 + N0 ==> adName[k] == E0[k - A0].Name && adVal[k] == E0[k - A0].Value && adSep[k] == "/" && adRoot[k] == r.root)
+  ensures @earlier-calls-kept [C03] forall k int :: {adName[k]} 0 <= k && k < A0 ==> adName[k] == old(adName[k]) && adVal[k] == old(adVal[k]) && adSep[k] == old(adSep[k]) && adRoot[k] == old(adRoot[k])
   loop 1 {
+    invariant @adds adLen == A0 + #i && elems(ln.Elements) == E0 && len(ln.Elements) == N0 && (forall k int :: {adName[k]} A0 <= k && k < A0 + #i ==> adName[k] == E0[k - A0].Name && adVal[k] == E0[k - A0].Value && adSep[k] == "/" && adRoot[k] == r.root)
+    invariant @earlier forall k int :: {adName[k]} 0 <= k && k < A0 ==> adName[k] == old(adName[k]) && adVal[k] == old(adVal[k]) && adSep[k] == old(adSep[k]) && adRoot[k] == old(adRoot[k])
     invariant @inv r == old(r) && ln == old(ln) && BalInv(r) && r.output == old(r.output) && r.root == old(r.root)
     invariant @nodes-kept forall n *shared.TreeNode :: {n in tnodes} old(n in tnodes) ==> n in tnodes
   }
@@ -92,7 +121,7 @@ func (*balanceReporter).Flush returns (err)
 func newBalanceReporterCollapsed returns (r)
   props C03 C08 C17
   requires @tree TreeInv()
-  modifies ghost(bufSink, bufSticky, tnodes, tdepth, tmax, tmapOf, jlen, tvLen, tv, tseg, tvSet)
+  modifies ghost(bufSink, bufSticky, tnodes, tdepth, tmax, tmapOf, jlen, tvLen, tv, tseg, tvSet, adLen, adName, adVal, adSep, adRoot)
   ensures @fresh fresh(r) && fresh(r.output) && BalCInv(r) && r.db == db
   ensures @nodes-kept forall n *shared.TreeNode :: {n in tnodes} old(n in tnodes) ==> n in tnodes
   ensures @sink [C17] bufSink == store(old(bufSink), r.output, payload(config.Output)) && bufSticky == store(old(bufSticky), r.output, false)
@@ -102,10 +131,20 @@ func (*balanceReporterCollapsed).Process returns (err)
   props C03 C08 C17
   requires @args ln != nil && BalCInv(r)
   modifies heap(shared.TreeNode), maps(string, *shared.TreeNode)
-  modifies ghost(tnodes, tdepth, tmax, tmapOf, jlen, tvLen, tv, tseg, tvSet)
+  modifies ghost(tnodes, tdepth, tmax, tmapOf, jlen, tvLen, tv, tseg, tvSet, adLen, adName, adVal, adSep, adRoot)
   ensures @inv BalCInv(r) && err == nil && r.output == old(r.output) && r.root == old(r.root)
   ensures @nodes-kept forall n *shared.TreeNode :: {n in tnodes} old(n in tnodes) ==> n in tnodes
+  // the tree receives EXACTLY the record's entries: one AddDeep per entry, in order, with the entry's own name and
+  // quantity, split on "/", below the reporter's root (with AddDeep's contract: every prefix path of the name grows
+  // by the quantity and nothing else changes)
+  let A0 := adLen
+  let E0 := elems(ln.Elements)
+  let N0 := len(ln.Elements)
+  ensures @adds-the-entries [C03] adLen == A0 + N0 && (forall k int :: {adName[k]} A0 <= k && k < A0 + N0 ==> adName[k] == E0[k - A0].Name && adVal[k] == E0[k - A0].Value && adSep[k] == "/" && adRoot[k] == r.root)
+  ensures @earlier-calls-kept [C03] forall k int :: {adName[k]} 0 <= k && k < A0 ==> adName[k] == old(adName[k]) && adVal[k] == old(adVal[k]) && adSep[k] == old(adSep[k]) && adRoot[k] == old(adRoot[k])
   loop 1 {
+    invariant @adds adLen == A0 + #i && elems(ln.Elements) == E0 && len(ln.Elements) == N0 && (forall k int :: {adName[k]} A0 <= k && k < A0 + #i ==> adName[k] == E0[k - A0].Name && adVal[k] == E0[k - A0].Value && adSep[k] == "/" && adRoot[k] == r.root)
+    invariant @earlier forall k int :: {adName[k]} 0 <= k && k < A0 ==> adName[k] == old(adName[k]) && adVal[k] == old(adVal[k]) && adSep[k] == old(adSep[k]) && adRoot[k] == old(adRoot[k])
     invariant @inv r == old(r) && ln == old(ln) && BalCInv(r) && r.output == old(r.output) && r.root == old(r.root)
     invariant @nodes-kept forall n *shared.TreeNode :: {n in tnodes} old(n in tnodes) ==> n in tnodes
   }
@@ -120,7 +159,7 @@ func (*balanceReporterCollapsed).Flush returns (err)
 func newBalanceSingleReporter returns (r)
   props C03 C08 C17 C07 C05
   requires @tree TreeInv() && DBIs(db)
-  modifies ghost(bufSink, bufSticky, tnodes, tdepth, tmax, tmapOf, jlen, tvLen, tv, tseg, tvSet)
+  modifies ghost(bufSink, bufSticky, tnodes, tdepth, tmax, tmapOf, jlen, tvLen, tv, tseg, tvSet, adLen, adName, adVal, adSep, adRoot)
   ensures @fresh fresh(r) && fresh(r.output) && BalSInv(r) && r.db == db && r.total == 0.0 && r.singleElement == config.SingleElement
   ensures @nodes-kept forall n *shared.TreeNode :: {n in tnodes} old(n in tnodes) ==> n in tnodes
   ensures @sink [C17] bufSink == store(old(bufSink), r.output, payload(config.Output)) && bufSticky == store(old(bufSticky), r.output, false)
@@ -130,7 +169,7 @@ func (*balanceSingleReporter).Process returns (err)
   props C03 C08 C17 C07 C05
   requires @args ln != nil && BalSInv(r)
   modifies *r, heap(shared.TreeNode), maps(string, *shared.TreeNode)
-  modifies ghost(tnodes, tdepth, tmax, tmapOf, jlen, tvLen, tv, tseg, tvSet)
+  modifies ghost(tnodes, tdepth, tmax, tmapOf, jlen, tvLen, tv, tseg, tvSet, adLen, adName, adVal, adSep, adRoot)
   ensures @inv BalSInv(r) && err == nil && r.output == old(r.output) && r.root == old(r.root) && r.db == old(r.db) && r.singleElement == old(r.singleElement)
   ensures @nodes-kept forall n *shared.TreeNode :: {n in tnodes} old(n in tnodes) ==> n in tnodes
   // the grand total grows by exactly the day's contribution to the chosen element - the same figures as the
@@ -140,8 +179,22 @@ func (*balanceSingleReporter).Process returns (err)
   let S := r.singleElement
   let T0 := r.total
   ensures @grand-total [C07 C03] r.total == T0 + EPos(E0, N0, S) + ENeg(E0, N0, S)
+  // ... and the tree receives exactly what the grand total receives: every AddDeep call goes below the reporter's
+  // root, splits on "/", carries the name of the logged FOOD being processed (asserted at the call), and the values of
+  // the calls add up to the growth of the total (each call's value is asserted where it is made: the food's quantity
+  // times its resolved amount of the element, or the quantity itself when the food is the element)
+  let A0 := adLen
+  ensures @tree-gets-the-total [C03 C07] adLen >= A0 && r.total == T0 + SumVals(adVal, A0, adLen - A0)
+  ensures @adds-below-root [C03] forall k int :: {adRoot[k]} A0 <= k && k < adLen ==> adRoot[k] == r.root && adSep[k] == "/"
+  ensures @earlier-calls-kept [C03] forall k int :: {adName[k]} 0 <= k && k < A0 ==> adName[k] == old(adName[k]) && adVal[k] == old(adVal[k]) && adSep[k] == old(adSep[k]) && adRoot[k] == old(adRoot[k])
+  ghost before call 1 AddDeep { assert @resolved-amount [C03] #arg0 == r.root && #arg1.Name == el.Name && #arg1.Value == repl.Value * el.Value && #arg2 == "/" }
+  ghost before call 2 AddDeep { assert @own-quantity [C03] #arg0 == r.root && #arg1.Name == el.Name && #arg1.Value == el.Value && #arg2 == "/" }
+  ghost after call every AddDeep { use SumValsStore(at(call, adVal), A0, at(call, adLen) - A0, at(call, adLen), adVal[at(call, adLen)]); let nn := adLen - A0; unfold SumVals(adVal, A0, nn) }
   loop 1 {
-    pre { unfold EPos(E0, 0, S); unfold ENeg(E0, 0, S) }
+    pre { unfold EPos(E0, 0, S); unfold ENeg(E0, 0, S); unfold SumVals(adVal, A0, 0) }
+    invariant @tree-total adLen >= A0 && r.total == T0 + SumVals(adVal, A0, adLen - A0)
+    invariant @foods forall k int :: {adRoot[k]} A0 <= k && k < adLen ==> adRoot[k] == r.root && adSep[k] == "/"
+    invariant @earlier forall k int :: {adName[k]} 0 <= k && k < A0 ==> adName[k] == old(adName[k]) && adVal[k] == old(adVal[k]) && adSep[k] == old(adSep[k]) && adRoot[k] == old(adRoot[k])
     invariant @total r.total == T0 + EPos(E0, #i, S) + ENeg(E0, #i, S) && elems(ln.Elements) == E0 && len(ln.Elements) == N0 && ln.Elements == old(ln.Elements)
     end { let i1 := #i + 1; unfold EPos(E0, i1, S); unfold ENeg(E0, i1, S); unfold CPos(E0[i1 - 1].Name, E0[i1 - 1].Value, S); unfold CNeg(E0[i1 - 1].Name, E0[i1 - 1].Value, S) }
     invariant @inv r == old(r) && ln == old(ln) && BalSInv(r) && r.output == old(r.output) && r.root == old(r.root) && r.db == old(r.db) && r.singleElement == old(r.singleElement) && r.collapse == old(r.collapse) && r.collapseLast == old(r.collapseLast)
@@ -149,6 +202,9 @@ func (*balanceSingleReporter).Process returns (err)
   }
   loop 2 {
     pre { unfold CPosIn(RDB[el.Name], 0, el.Value, S); unfold CNegIn(RDB[el.Name], 0, el.Value, S) }
+    invariant @tree-total adLen >= A0 && r.total == T0 + SumVals(adVal, A0, adLen - A0)
+    invariant @foods forall k int :: {adRoot[k]} A0 <= k && k < adLen ==> adRoot[k] == r.root && adSep[k] == "/"
+    invariant @earlier forall k int :: {adName[k]} 0 <= k && k < A0 ==> adName[k] == old(adName[k]) && adVal[k] == old(adVal[k]) && adSep[k] == old(adSep[k]) && adRoot[k] == old(adRoot[k])
     invariant @total r.total == T0 + EPos(E0, #i1, S) + ENeg(E0, #i1, S) + CPosIn(RDB[el.Name], #i, el.Value, S) + CNegIn(RDB[el.Name], #i, el.Value, S) && elems(ln.Elements) == E0 && len(ln.Elements) == N0 && ln.Elements == old(ln.Elements)
     invariant @row el == E0[#i1] && 0 <= #i1 && #i1 < N0 && el.Name in RDBdom && elems(#coll) == RDB[el.Name] && len(#coll) == RDBlen[el.Name]
     end { let j1 := #i + 1; unfold CPosIn(RDB[el.Name], j1, el.Value, S); unfold CNegIn(RDB[el.Name], j1, el.Value, S) }
@@ -169,7 +225,7 @@ func (*balanceSingleReporter).Flush returns (err)
 func getReporter returns (r)
   props C03 C08 C17
   requires @tree TreeInv() && DBIs(db)
-  modifies ghost(bufSink, bufSticky, tnodes, tdepth, tmax, tmapOf, jlen, tvLen, tv, tseg, tvSet)
+  modifies ghost(bufSink, bufSticky, tnodes, tdepth, tmax, tmapOf, jlen, tvLen, tv, tseg, tvSet, adLen, adName, adVal, adSep, adRoot)
   ensures @reporter RepInv(r) && fresh(RepBuf(r)) && RepBookBelow(r, alloc())
   ensures @sink [C17] bufSink == store(old(bufSink), RepBuf(r), payload(config.Output)) && bufSticky == store(old(bufSticky), RepBuf(r), false)
   // the display mode follows the flags: a chosen element always selects the single-element balance (C03), otherwise --collapse
@@ -189,7 +245,7 @@ func Balance returns (err)
   requires @streams logStream != nil && dbStream != nil
   requires @sink bc.ReporterConfig.Output != nil && !typeis(bc.ReporterConfig.Output, "*bufio.Writer") && !typeis(bc.ReporterConfig.Output, "*encoding/csv.Writer") && TreeInv()
   modifies *
-  modifies ghost(cbLen, cbErr, cbNode, cbStop, cbRet, cbLineNo, cbLine, cbHeader, cbElems, cbNElems, scRd, scPos, privLo, evOf, accKey, accP, accN, accH, bufSink, bufSticky, sinkFailed, sinkPend, prLen, prSink, prArg, prArgs, csvLen, csvW, csvN, csvRow, tnodes, tdepth, tmax, tmapOf, jlen, tvLen, tv, tseg, tvSet, procLen, procTime, procSrc)
+  modifies ghost(cbLen, cbErr, cbNode, cbStop, cbRet, cbLineNo, cbLine, cbHeader, cbElems, cbNElems, scRd, scPos, privLo, evOf, accKey, accP, accN, accH, bufSink, bufSticky, sinkFailed, sinkPend, prLen, prSink, prArg, prArgs, csvLen, csvW, csvN, csvRow, tnodes, tdepth, tmax, tmapOf, jlen, tvLen, tv, tseg, tvSet, adLen, adName, adVal, adSep, adRoot, procLen, procTime, procSrc)
   let out := payload(bc.ReporterConfig.Output)
   let lrd := payload(logStream)
   let drd := payload(dbStream)
@@ -207,18 +263,18 @@ func Balance returns (err)
 // ---------------------------------------------------------------------------------------------
 type balance.balanceCmd(logStream, dbStream, bc) returns (err)
   modifies *
-  modifies ghost(cbLen, cbErr, cbNode, cbStop, cbRet, cbLineNo, cbLine, cbHeader, cbElems, cbNElems, scRd, scPos, privLo, evOf, accKey, accP, accN, accH, bufSink, bufSticky, sinkFailed, sinkPend, prLen, prSink, prArg, prArgs, csvLen, csvW, csvN, csvRow, tnodes, tdepth, tmax, tmapOf, jlen, tvLen, tv, tseg, tvSet, procLen, procTime, procSrc, lastOpen, cfgRd)
+  modifies ghost(cbLen, cbErr, cbNode, cbStop, cbRet, cbLineNo, cbLine, cbHeader, cbElems, cbNElems, scRd, scPos, privLo, evOf, accKey, accP, accN, accH, bufSink, bufSticky, sinkFailed, sinkPend, prLen, prSink, prArg, prArgs, csvLen, csvW, csvN, csvRow, tnodes, tdepth, tmax, tmapOf, jlen, tvLen, tv, tseg, tvSet, adLen, adName, adVal, adSep, adRoot, procLen, procTime, procSrc, lastOpen, cfgRd)
 
 type balance.withFileReaders(fileNames, cb) returns (err)
   modifies *
-  modifies ghost(cbLen, cbErr, cbNode, cbStop, cbRet, cbLineNo, cbLine, cbHeader, cbElems, cbNElems, scRd, scPos, privLo, evOf, accKey, accP, accN, accH, bufSink, bufSticky, sinkFailed, sinkPend, prLen, prSink, prArg, prArgs, csvLen, csvW, csvN, csvRow, tnodes, tdepth, tmax, tmapOf, jlen, tvLen, tv, tseg, tvSet, procLen, procTime, procSrc, lastOpen, cfgRd)
+  modifies ghost(cbLen, cbErr, cbNode, cbStop, cbRet, cbLineNo, cbLine, cbHeader, cbElems, cbNElems, scRd, scPos, privLo, evOf, accKey, accP, accN, accH, bufSink, bufSticky, sinkFailed, sinkPend, prLen, prSink, prArg, prArgs, csvLen, csvW, csvN, csvRow, tnodes, tdepth, tmax, tmapOf, jlen, tvLen, tv, tseg, tvSet, adLen, adName, adVal, adSep, adRoot, procLen, procTime, procSrc, lastOpen, cfgRd)
 
 func NewBalanceCommand$1$1$1 returns (err)
   props C16 C06 C15 C11 C03 C08
   requires @streams len(streams) == 2 && o != nil && balance != nil
   dyncall 1 balance.balanceCmd
   modifies *
-  modifies ghost(cbLen, cbErr, cbNode, cbStop, cbRet, cbLineNo, cbLine, cbHeader, cbElems, cbNElems, scRd, scPos, privLo, evOf, accKey, accP, accN, accH, bufSink, bufSticky, sinkFailed, sinkPend, prLen, prSink, prArg, prArgs, csvLen, csvW, csvN, csvRow, tnodes, tdepth, tmax, tmapOf, jlen, tvLen, tv, tseg, tvSet, procLen, procTime, procSrc, lastOpen, cfgRd)
+  modifies ghost(cbLen, cbErr, cbNode, cbStop, cbRet, cbLineNo, cbLine, cbHeader, cbElems, cbNElems, scRd, scPos, privLo, evOf, accKey, accP, accN, accH, bufSink, bufSticky, sinkFailed, sinkPend, prLen, prSink, prArg, prArgs, csvLen, csvW, csvN, csvRow, tnodes, tdepth, tmax, tmapOf, jlen, tvLen, tv, tseg, tvSet, adLen, adName, adVal, adSep, adRoot, procLen, procTime, procSrc, lastOpen, cfgRd)
   ghost before dyncall 1 {
     assert @streams [C16] #arg0 == streams[1] && #arg1 == streams[0]
     assert @wiring [C16 C06 C15 C11 C03] #arg2.DateFormat == o.GlobalConfig.DateFormat && #arg2.ParserConfig == o.ParserConfig && #arg2.ResolverConfig == o.ResolverConfig && #arg2.ReporterConfig == o.ReporterConfig && #arg2.FilterConfig == o.FilterConfig
@@ -229,7 +285,7 @@ func NewBalanceCommand$1$1 returns (err)
   requires @loaded o != nil && cu.WithFileReaders != nil
   dyncall 1 balance.withFileReaders
   modifies *
-  modifies ghost(cbLen, cbErr, cbNode, cbStop, cbRet, cbLineNo, cbLine, cbHeader, cbElems, cbNElems, scRd, scPos, privLo, evOf, accKey, accP, accN, accH, bufSink, bufSticky, sinkFailed, sinkPend, prLen, prSink, prArg, prArgs, csvLen, csvW, csvN, csvRow, tnodes, tdepth, tmax, tmapOf, jlen, tvLen, tv, tseg, tvSet, procLen, procTime, procSrc, lastOpen, cfgRd)
+  modifies ghost(cbLen, cbErr, cbNode, cbStop, cbRet, cbLineNo, cbLine, cbHeader, cbElems, cbNElems, scRd, scPos, privLo, evOf, accKey, accP, accN, accH, bufSink, bufSticky, sinkFailed, sinkPend, prLen, prSink, prArg, prArgs, csvLen, csvW, csvN, csvRow, tnodes, tdepth, tmax, tmapOf, jlen, tvLen, tv, tseg, tvSet, adLen, adName, adVal, adSep, adRoot, procLen, procTime, procSrc, lastOpen, cfgRd)
   ghost before dyncall 1 {
     assert @files [C16] len(#arg0) == 2 && #arg0[0] == o.GlobalConfig.DbFileName && #arg0[1] == o.GlobalConfig.LogFileName
   }
